@@ -713,7 +713,7 @@ Definition run_reg (c impl : sexp) : sexp :=
       reg_answer_obs (if Z.eqb (sx_int (sx_nth 0 p)) 0 then serve_dispatch O rt st req else serve_http O rt st req) in
   let m_obs := Lst [ I (match fail with Some (k, _) => Z.of_nat k | None => (-1)%Z end);
                      Lst (map (ask s) probes); Lst (map (ask sf) probes);
-                     I (match ffail with Some _ => 1 | None => 0 end)%Z ] in
+                     I (match ffail with Some _ => 1 | None => 0 end)%Z; I 1 ] in
   let i_failed := sx_int (sx_nth 0 impl) in
   let same := sexp_eqb (sx_nth 1 impl) (sx_nth 2 impl) in
   let cls := (if negb (Z.eqb i_failed (-1)) then "operation-failed"
@@ -721,7 +721,8 @@ Definition run_reg (c impl : sexp) : sexp :=
               else "adds-only")%string in
   Lst [ m_obs;
         Lst [ verdict "c11_add_never_panics" (Z.eqb i_failed (-1) && Z.eqb (sx_int (sx_nth 3 impl)) 0);
-              verdict "c11_same_as_fresh" same ];
+              verdict "c11_same_as_fresh" same;
+              verdict "c11_refused_remove_changes_nothing" (sx_bool (sx_nth 4 impl)) ];
         A (L cls);
         Lst [ verdict "premises_of_C11" (reg_premises ops);
               verdict "has_plain_handler" (existsb (fun o => match o with RHandle _ _ => true | _ => false end) ops);
